@@ -347,3 +347,8 @@ impl<F: std::io::Write> std::io::Write for Counter<F> {
         self.stream.flush()
     }
 }
+
+// verification hook: inert unless built by `cargo kani` (cfg(kani)); see /verif/DESIGN.md
+#[cfg(kani)]
+#[path = "/verif/harness/lib.rs"]
+mod verif_k;
